@@ -11,6 +11,7 @@
 #include "esl_alphabet.h"
 #include "esl_bitfield.h"
 #include "esl_msa.h"
+#include "esl_sq.h"
 #include "esl_wuss.h"
 
 static ESL_MSA *A, *B;
@@ -237,6 +238,22 @@ static void h_op(void)
     const char *w = h_arg("w"); ESL_MSA *m = (w && !strcmp(w, "b")) ? B : A;
     if (!m) { h_out("nomsa"); return; }
     h_out("%s", h_status(esl_msa_Validate(m, errbuf)));
+  } else if (!strcmp(op, "fetch")) {      /* esl_sq_FetchFromMSA(): the ungapped sequence with its annotation */
+    const char *w = h_arg("w"); ESL_MSA *m = (w && !strcmp(w, "b")) ? B : A; ESL_SQ *sq = NULL; int st, x;
+    if (!m) { h_out("nomsa"); return; }
+    st = esl_sq_FetchFromMSA(m, (int) h_argi("i", 0), &sq);
+    o_reset(); o_fmt("%s", h_status(st));
+    if (st == eslOK) {
+      int dig = (sq->dsq != NULL);
+      o_add(" name="); o_str(sq->name); o_add(" acc="); o_str(sq->acc); o_add(" desc="); o_str(sq->desc);
+      o_add(" src="); o_str(sq->source);
+      o_fmt(" n=%" PRId64 " L=%" PRId64 " seq=", sq->n, sq->L);
+      if (dig) o_add(sq->n ? h_hex(sq->dsq + 1, esl_abc_dsqlen(sq->dsq)) : (esl_abc_dsqlen(sq->dsq) ? "LONG" : "-")); else o_str(sq->seq);
+      o_add(" ss="); o_str(sq->ss ? (dig ? sq->ss + 1 : sq->ss) : NULL);
+      for (x = 0; x < sq->nxr; x++) { o_add(" xr="); o_str(sq->xr_tag[x]); o_add(","); o_str(sq->xr[x] ? (dig ? sq->xr[x] + 1 : sq->xr[x]) : NULL); }
+    }
+    h_out("%s", ob);
+    if (sq) esl_sq_Destroy(sq);
   } else if (!strcmp(op, "swap")) {
     if (!B) { h_out("noswap"); return; }
     { ESL_MSA *t = A; A = B; B = t; h_out("ok"); }
